@@ -101,6 +101,24 @@ def flagL2L := 16
 def flagL2P := 32
 def hasFlag (flags f : Nat) : Bool := (flags / f) % 2 == 1
 
+/-! ### the named flag sets of `TbfAlgorithmUtils::TbfOperations` -/
+def flagBottomToTop : Nat := flagP2M ||| flagM2M
+def flagTopToBottom : Nat := flagL2L ||| flagL2P
+def flagTransfer : Nat := flagM2L ||| flagP2P
+def flagNearField : Nat := flagP2P
+def flagFarField : Nat := flagP2M ||| flagM2M ||| flagM2L ||| flagL2L ||| flagL2P
+def flagNearAndFar : Nat := flagNearField ||| flagFarField
+
+/-- the name a case file uses for a flag set (`alias=<name>`); the harness resolves the same names to the library's constants -/
+def flagAlias : String → Option Nat
+  | "p2p" => some flagP2P | "p2m" => some flagP2M | "m2m" => some flagM2M
+  | "m2l" => some flagM2L | "l2l" => some flagL2L | "l2p" => some flagL2P
+  | "b2t" => some flagBottomToTop | "transfer" => some flagTransfer | "t2b" => some flagTopToBottom
+  | "near" => some flagNearField | "far" => some flagFarField | "all" => some flagNearAndFar
+  | "default" => some flagNearAndFar      -- `execute(tree)` without a flag argument
+  | _ => none
+
+
 def Tree.leafGroups (t : Tree) : List Group := t.pgroups.map fun g => g.map (·.idx)
 
 def p2mAll (t : Tree) (upper : Nat) : List Call :=
